@@ -22,8 +22,8 @@ func Escrow(bridgeID uint64) []byte {
 }
 
 type vecFile struct {
-	Leaf []struct{ Bridge, Seq, Sender, Receiver, Denom, Amount, Hash string } `json:"leaf"`
-	Node []struct{ A, B, Hash string }                                        `json:"node"`
+	Leaf       []struct{ Bridge, Seq, Sender, Receiver, Denom, Amount, Hash string } `json:"leaf"`
+	Node       []struct{ A, B, Hash string }                                         `json:"node"`
 	OutputRoot []struct {
 		Version     int    `json:"version"`
 		StorageRoot string `json:"storage_root"`
